@@ -654,6 +654,9 @@ def run_case(case, acc, tier="quick"):
     for (u, vs), g0 in sorted(ctx.uvs.items()):
         if u in requested_u and vs in requested_u:
             must.add(g0)
+            if g0 == zero_glyph:
+                acc.exclude("notdef_glyph=False: requested variation sequence whose glyph lands on gid 0 is unmapped in the subset")
+                continue
             g1 = hb1.variation_glyph(u, vs)
             if not g1:
                 acc.fail("present", "requested-variation-sequence-unmapped", "<U+%04X U+%04X> (%s in the original) has no mapping in the subset" % (u, vs, names[g0]), case)
